@@ -1316,7 +1316,7 @@ def base_quantiles(c, shape, i):
 # digamma equations, from_mode, expected sufficient statistics
 
 
-GB_OPS = {"logpdfx", "expstats", "canon", "logpartition", "invpsilog", "invbeta", "frommode"}
+GB_OPS = {"logpdfx", "meanx", "expstats", "canon", "logpartition", "invpsilog", "invbeta", "frommode"}
 PSILOG_START = (0.38648347, 0.89486989, 0.78578843)
 
 
@@ -1397,6 +1397,8 @@ def exec_stmt_gb(st, regs):
     m = regs[st["a"]]
     if op == "logpdfx":
         return [("num", np.asarray(m.logpdf(xarr(m, st["x"])), dtype=float))]
+    if op == "meanx":
+        return [("num", np.asarray(m.mean, dtype=float))]
     if op == "expstats":
         # no method of the library returns E[t(x)]: the closed form on the parameters the REAL message holds
         return [("pair", expected_stats(base_of(m)))]
@@ -1545,6 +1547,37 @@ def oracle_stacked(ctx, case, prog, regs, first):
             _ = size
 
 
+def gb_pinned():
+    """programs run on every run whatever the seed: the boundary behaviours of the newly modelled code"""
+    def new(fam, p1, p2):
+        return {"op": "new", "fam": fam, "p1": p1, "p2": p2, "ln": 0.5, "id": fresh_id(), "lo": -INF, "hi": INF}
+    progs = [
+        # the zero message of the EP code (zeros_like = self ** 0.): NaturalNormal.mean is nan_to_num(0 / 0) = 0
+        [new("naturalNormal", 0.75, -0.5), {"op": "pow", "a": 0, "k": 0.0}, {"op": "meanx", "a": 1},
+         {"op": "logpdfx", "a": 1, "x": 0.3}, {"op": "meanx", "a": 0}],
+        [new("naturalNormal", [0.75, -1.0], [-0.5, -2.0]), {"op": "pow", "a": 0, "k": 0.0}, {"op": "meanx", "a": 1}],
+        [new("normal", 1.0, 2.0), {"op": "pow", "a": 0, "k": -1.0}, {"op": "logpdfx", "a": 1, "x": 0.3}, {"op": "meanx", "a": 1}],
+        # eta1 = 0 at the boundary of the support: 0 * log(0) is NaN, nan_to_num(nan=-inf)
+        [new("gamma", 1.0, 2.0), {"op": "logpdfx", "a": 0, "x": 0.0}, {"op": "logpdfx", "a": 0, "x": -1.0},
+         {"op": "logpdfx", "a": 0, "x": 0.5}, {"op": "logpartition", "a": 0}, {"op": "expstats", "a": 0}],
+        [new("gamma", 3.0, 0.5), {"op": "logpdfx", "a": 0, "x": 0.0}, {"op": "logpdfx", "a": 0, "x": 2.0}],
+        [new("gamma", 0.4, 0.5), {"op": "logpdfx", "a": 0, "x": 0.0}, {"op": "logpdfx", "a": 0, "x": 1e-300}],
+        [new("beta", 1.0, 1.0), {"op": "logpdfx", "a": 0, "x": 0.0}, {"op": "logpdfx", "a": 0, "x": 1.0},
+         {"op": "logpdfx", "a": 0, "x": 0.25}],
+        [new("beta", [2.5, 0.5], [0.7, 3.0]), {"op": "logpdfx", "a": 0, "x": [0.0, 1.0]}, {"op": "logpdfx", "a": 0, "x": [1.0, 0.0]},
+         {"op": "logpdfx", "a": 0, "x": [1.5, -0.5]}, {"op": "canon", "a": 0, "x": [0.25, 0.75]}, {"op": "expstats", "a": 0}],
+        [{"op": "invpsilog", "x": [-1e-4, -0.5, -30.0]}],
+        [{"op": "invbeta", "x": [-0.7, -2.0], "y": [-0.7, -0.2]}],
+        [{"op": "frommode", "fam": "gamma", "m": 2.0, "v": 0.25, "ln": 0.5, "id": fresh_id(), "lo": -INF, "hi": INF},
+         {"op": "mean", "a": 0}, {"op": "variance", "a": 0}, {"op": "natural", "a": 0}],
+        [{"op": "frommode", "fam": "normal", "m": [1.0, -2.0], "v": -0.25, "ln": 0.0, "id": fresh_id(), "lo": -3.0, "hi": 7.0},
+         {"op": "natural", "a": 0}],
+        [{"op": "frommode", "fam": "naturalNormal", "m": 1.5, "v": 0.25, "ln": 0.0, "id": fresh_id(), "lo": -INF, "hi": INF},
+         {"op": "natural", "a": 0}, {"op": "meanx", "a": 0}],
+    ]
+    return [{"prog": p} for p in progs]
+
+
 def gen_gb(rng):
     """programs for the Gamma / Beta part of the model: densities inside, on the boundary of and outside the
     support (np.nan_to_num), log-partition, sufficient statistics, expected statistics, the raw Newton inversions
@@ -1587,6 +1620,12 @@ def gen_gb(rng):
                     return round(rng.uniform(lo - 3, lo), 4) if fam != "beta" else rng.choice([-0.5, 1.0, 1.5, 2.0])
                 return rng.choice([1e-300, 1e-12, 1 - 1e-12, 1e12]) if fam != "beta" else rng.choice([1e-300, 1e-12, 1 - 1e-12])
             prog.append({"op": "logpdfx", "a": a, "x": many(pt)})
+        if fam in ("normal", "naturalNormal"):
+            prog.append({"op": "meanx", "a": a})  # NaturalNormal ** 0: nan_to_num(0 / 0) = 0
+            if rng.random() < 0.5:
+                prog.append({"op": "tnew", "b": a, "trs": variant_trs(rng, rng.choice(["shifted", "log", "log10"])), "id": None,
+                             "lo": -INF, "hi": INF})
+                prog.append({"op": "meanx", "a": len(prog) - 1})
         if fam in ("gamma", "beta"):
             prog.append({"op": "canon", "a": 0, "x": many(lambda: round(rng.uniform(lo + 1e-3, (hi if fam == "beta" else 9.0) - 1e-3), 5))})
             prog.append({"op": "logpartition", "a": 0})
@@ -2190,6 +2229,8 @@ def run(ctx):
         else:
             case = gen_moments(ctx.rng)
             one_case(ctx, case, label="moments", budget=budget)
+    for case in gb_pinned():
+        one_case(ctx, case, label="gamma-beta-pinned", budget=budget)
     for k in range(ctx.n(120, 5000)):
         one_case(ctx, gen_gb(ctx.rng), label="gamma-beta", budget=budget)
     element_assignment(ctx, ctx.n(40, 600))
